@@ -398,6 +398,11 @@ impl Adapter for Pst13A {
         }
         Some(SparsePolynomial { num_vars: nv, terms })
     }
+    /// SparsePolynomial::rand(h + 1, nv): one draw for the constant and one per variable and power
+    fn extra_commit_draws(c: &Case) -> usize {
+        let nv = opt_usize(c.str1("num_vars")).unwrap_or(0);
+        (0..c.usize1("n")).map(|i| match opt_usize(c.str1(&format!("hiding.{}", i))) { Some(h) => 1 + nv * (h + 1), None => 0 }).sum()
+    }
     /// elements over (g, gamma_g, standard generator): the two published generators and the one proof mutations use
     fn key_obs(_ck: &CK<Self>, vk: &VK<Self>, out: &mut Out) {
         out.input("pbasis", &["G1".into(), ser_hex(&vk.g), ser_hex(&vk.gamma_g), ser_hex(&exp_g::<ark_bls12_381::G1Affine>(Fr::from(1u64)))]);
@@ -412,7 +417,7 @@ impl Adapter for Pst13A {
     fn poly_input(i: usize, p: &MVPoly, out: &mut Out) { out.input(&format!("cpoly.{}", i), &mv_tokens(p)); }
     fn comm_obs(i: usize, cm: &Cm<Self>, st: &St<Self>, out: &mut Out) {
         out.obs(&format!("c.{}", i), "L:pbasis", &[ser_hex(&cm.comm.0)]);
-        out.input(&format!("blind.{}", i), &mv_tokens(&st.blinding_polynomial));
+        out.obs(&format!("blind.{}", i), "S", &crate::c15::poly_canon(&st.blinding_polynomial));
     }
     fn proof_obs(name: &str, pf: &Pf<Self>, out: &mut Out) {
         out.obs(&format!("{}.w", name), "L:pbasis", &{ let v: Vec<String> = pf.w.iter().map(ser_hex).collect(); if v.is_empty() { vec!["-".into()] } else { v } });
